@@ -604,6 +604,10 @@ func compare(cfg config, it *item, results []string) *compared {
 			case "crash", "badvariant", "oof", "panic":
 				fail("host-crash", "the host reported "+status, line)
 				continue
+			case "hostcheck":
+				// a check the host makes on every result (error list contract, returned values stay what they were, ...)
+				fail("hostcheck", strings.TrimPrefix(line[len(want):], "hostcheck "), line)
+				continue
 			}
 			res, err := readRet(line)
 			if err != nil {
